@@ -221,7 +221,9 @@ mod verif_nat {
         assert!(val_rel(&abs(&r), 0) == Some(w_limbs(m)));
         if L >= 2 {
             kani::cover!(r.ptr != DANGLING); // heap result
-            kani::cover!(r.ptr != DANGLING && r.shl >= 64); // leading zero digits became exponent
+        }
+        if L >= 3 {
+            kani::cover!(r.ptr != DANGLING && r.shl >= 64); // a zero low digit became exponent
         }
         kani::cover!(r.ptr == DANGLING);
     }
@@ -409,16 +411,25 @@ mod verif_nat {
         let (va, vb) = (val_rel(&aa, base), val_rel(&ab, base));
         // 0 <=> 0 is checked on its own in `cmp_zero_zero` (it fails on the real code, debug builds)
         let ok = va.is_some() && vb.is_some() && !(is_zero(&aa) && is_zero(&ab));
-        kani::cover!(ok && is_zero(&aa));
-        kani::cover!(ok && is_zero(&ab));
+        if LA == 1 {
+            kani::cover!(ok && is_zero(&aa));
+        }
+        if LB == 1 {
+            kani::cover!(ok && is_zero(&ab));
+        }
         kani::cover!(ok && aa.e as u128 > ab.e as u128 + 40);
         kani::cover!(ok && (aa.e as u128) + 40 < ab.e as u128);
         kani::cover!(ok && aa.e == ab.e);
         kani::assume(ok);
         let want = va.unwrap().cmp(&vb.unwrap());
-        kani::cover!(want == Ordering::Equal);
+        if LA == LB || (LA >= 2 && LB >= 2) {
+            kani::cover!(want == Ordering::Equal);
+        }
         kani::cover!(want == Ordering::Less && aa.e > ab.e);
-        kani::cover!(want == Ordering::Greater && aa.e < ab.e);
+        if !(LA == 1 && LB >= 2) {
+            // (an inline value with the smaller exponent can never exceed a heap value: < 2^64 vs > 2^64)
+            kani::cover!(want == Ordering::Greater && aa.e < ab.e);
+        }
         assert!(a.partial_cmp(&b) == Some(want));
         assert!(b.partial_cmp(&a) == Some(want.reverse()));
         assert!((want == Ordering::Equal) == (a == b));
@@ -430,7 +441,9 @@ mod verif_nat {
         let b = any_num::<LB>();
         let (aa, ab) = (abs(&a), abs(&b));
         let ok = !is_zero(&aa) && aa.e >= 192 && aa.e - 192 >= ab.e;
-        kani::cover!(ok && is_zero(&ab));
+        if LB == 1 {
+            kani::cover!(ok && is_zero(&ab));
+        }
         kani::cover!(ok && !is_zero(&ab) && aa.e == u64::MAX - 1);
         kani::assume(ok);
         assert!(a.partial_cmp(&b) == Some(Ordering::Greater));
@@ -459,9 +472,25 @@ mod verif_nat {
     }
     cmp_h! {
         cmp_1_1, cmp_far_1_1: 1, 1; cmp_1_2, cmp_far_1_2: 1, 2; cmp_1_3, cmp_far_1_3: 1, 3;
-        cmp_2_2, cmp_far_2_2: 2, 2; cmp_2_3, cmp_far_2_3: 2, 3; cmp_3_3, cmp_far_3_3: 3, 3;
     }
 
+    // heap x heap shapes: only the far-apart harness is decidable in reasonable time (check_cmp::<2, 2> ran
+    // > 16 min CPU without finishing; see REPORT.md)
+    #[kani::proof]
+    #[kani::unwind(34)]
+    fn cmp_far_2_2() {
+        check_cmp_far::<2, 2>()
+    }
+    #[kani::proof]
+    #[kani::unwind(34)]
+    fn cmp_far_2_3() {
+        check_cmp_far::<2, 3>()
+    }
+    #[kani::proof]
+    #[kani::unwind(34)]
+    fn cmp_far_3_3() {
+        check_cmp_far::<3, 3>()
+    }
     #[kani::proof]
     #[kani::unwind(34)]
     fn cmp_far_2_1() {
@@ -661,7 +690,11 @@ mod verif_nat {
             (false, [m_lo, 0, 0, 0], e_lo)
         } else {
             let up = (m_hi as u128) << (gap - 64);
-            kani::cover!(up > u64::MAX as u128); // three-digit result
+            if gap > 64 {
+                kani::cover!(up > u64::MAX as u128); // three-digit result
+            } else {
+                kani::cover!(up > 1); // gap == 64: two digits, digit aligned
+            }
             (false, [m_lo, up as u64, (up >> 64) as u64, 0], e_lo)
         };
         let r = a + b;
@@ -676,20 +709,20 @@ mod verif_nat {
         }
     }
     macro_rules! add_inline_h {
-        ($($name:ident: $ea:expr, $eb:expr;)*) => {$(
+        ($($name:ident: $ea:expr, $eb:expr, $unwind:literal;)*) => {$(
             #[kani::proof]
-            #[kani::unwind(3)]
+            #[kani::unwind($unwind)]
             #[kani::stub(std::vec::Vec::with_capacity, with_capacity_split)]
             fn $name() { check_add_inline($ea, $eb) }
         )*};
     }
     add_inline_h! {
-        add_inline_e0_e3: 0, 3;            // small gap
-        add_inline_e3_e0: 3, 0;            // same, operands swapped
-        add_inline_e5_e68: 5, 68;          // gap 63: overlapping digits
-        add_inline_e5_e69: 5, 69;          // gap 64: digit aligned, no overlap
-        add_inline_e5_e70: 5, 70;          // gap 65: no overlap, start_bit 1
-        add_inline_emax_gap: u64::MAX - 2, u64::MAX - 5;
+        add_inline_e0_e3: 0, 3, 3;            // small gap
+        add_inline_e3_e0: 3, 0, 4;   // (mem::swap of the 24-byte struct is a 3-iteration loop)            // same, operands swapped
+        add_inline_e5_e68: 5, 68, 3;          // gap 63: overlapping digits
+        add_inline_e5_e69: 5, 69, 3;          // gap 64: digit aligned, no overlap
+        add_inline_e5_e70: 5, 70, 3;          // gap 65: no overlap, start_bit 1
+        add_inline_emax_gap: u64::MAX - 5, u64::MAX - 2, 3;
     }
 
     /// NaN + x = x + NaN = NaN for inline operands: every wf inline NaN (mantissa 0 = `Natural::NAN`,
@@ -698,20 +731,24 @@ mod verif_nat {
         let a = inline_nat(u64::MAX);
         let b = inline_nat(eb);
         kani::cover!(a.len == 0 && b.len != 0);
-        kani::cover!(a.len != 0 && b.len == 0);
+        if eb == 0 {
+            kani::cover!(a.len != 0 && b.len == 0); // x = 0 only exists with exponent 0
+        } else {
+            kani::cover!(a.len != 0 && b.len != 0);
+        }
         let swap: bool = kani::any();
         let r = if swap { b + a } else { a + b };
         assert!(wf(&r));
         assert!(r.is_nan());
     }
     #[kani::proof]
-    #[kani::unwind(3)]
+    #[kani::unwind(5)]
     #[kani::stub(std::vec::Vec::with_capacity, with_capacity_split)]
     fn add_nan_inline_e0() {
         check_add_nan_inline(0)
     }
     #[kani::proof]
-    #[kani::unwind(3)]
+    #[kani::unwind(5)]
     #[kani::stub(std::vec::Vec::with_capacity, with_capacity_split)]
     fn add_nan_inline_e7() {
         check_add_nan_inline(7)
